@@ -95,7 +95,7 @@ def signal_sets(nvars, tier):
         else:
             if t0 == 0:
                 sx = dref.signals_L(2, F.V2, t0, max_interior=1 if quick else None)
-                sy = dref.signals_L(2, F.V2 if quick else F.V3, t0, max_interior=1)
+                sy = dref.signals_L(2, F.V2, t0, max_interior=1)
             else:
                 sx = dref.signals_L(2, F.V2, t0, max_interior=0 if quick else 1)
                 sy = dref.signals_L(2, F.V2, t0, max_interior=1)
